@@ -4,6 +4,8 @@ CONSTANTS
   NOps = {0, 1, 2, 3, 4}
   Buffers = {0, 1, 2}
   QCaps = {1, 2}
+  MaxPanics = 1
+  FifoSend = FALSE
   AtomicLast = FALSE
 VIEW View
 INVARIANTS WaitMeansDone NoPanic ClosedAtMostOnce NoDuplicates CloseIsLast Complete
